@@ -230,6 +230,8 @@ class Ctx:
         name = name or ("trace_" + module)
         env = {"TRACE": os.path.abspath(trace),
                "JAVA_TOOL_OPTIONS": "-Dtlc2.tool.queue.IStateQueue=StateDeque"}
+        if os.environ.get("KNOWN"):
+            env["KNOWN"] = os.environ["KNOWN"]
         r = self.tlc(tladir, module, cfg, workers=1, timeout=timeout, xmx=xmx, env=env,
                      name=name, allow_violation=True)
         # trace runs do not count as model states
@@ -287,6 +289,14 @@ class Ctx:
         if key in self.known:
             self.known_hit[key] = self.known[key]
             return
+        if key.startswith("dev:") and "+" in key:
+            # a behaviour exhibiting several named deviations whose observed output equals the
+            # as-is prediction: excused iff every one of the deviations is a listed finding
+            parts = ["dev:" + p for p in key[4:].split("+")]
+            if all(p in self.known for p in parts):
+                for p in parts:
+                    self.known_hit[p] = self.known[p]
+                return
         n = len(self.violations)
         path = os.path.join(self.replay_dir, "%d.json" % n)
         if n < 50:
